@@ -54,6 +54,9 @@ CHECKS = {
  "C16": ("property-based testing (rapid): model-computed reachability closure as reference for the trimmer (API and binary), plus idempotence, front-end acceptance of the dumped result and compile sampling",
          "Generated programs and trimmer arguments; the kept/removed sets must equal the closure computed from the generating model, the result must pass semantic analysis and (sampled) compile, trimming again must change nothing, kept struct-likes keep their fields, -m keeps only matching methods and what they need.",
          "Trusted: the closure (written from the property statement), the front end (C03/C05), the dumper (C17)."),
+ "C04": ("property-based testing (rapid): valid generated programs x single rule-breaking edits from a catalogue (fault injection into the input) x backends, black-box oracle on the thriftgo binary; contra-positive run on the unedited program",
+         "Every catalogue edit is constructed to break exactly one enforced rule; the binary must exit non-zero with a diagnostic, write nothing, show no Go panic/fatal trace and not hang, wherever in the include graph the error sits; the unedited program must exit 0 with its output complete.",
+         "Trusted: the edit constructors (each verified to break only the named rule on hand cases)."),
 }
 NOT_YET = "check not built yet (work in progress; the technique applies, see DESIGN.md)"
 
